@@ -16,9 +16,10 @@ def sam_len(v):
     return {0: 6, 1: 10, 2: 10, 4: 16, 5: 12}.get(g)
 
 
-def impl_findings():
-    """re-check the property directly on the imported package against the Spec tables (parsed from Spec/*.v)"""
-    r = vlib.reflect()
+def impl_findings(after_use=False):
+    """re-check the property directly on the imported package against the Spec tables (parsed from Spec/*.v);
+    after_use: on the tables as they are after the library was used (attached to every device type, every facade method called)"""
+    r = vlib.reflect_after_use() if after_use else vlib.reflect()
     ops = vlib.parse_spec_pairs("Spec/T10Opcodes.v", "t10_opcodes")
     sas = vlib.parse_spec_pairs("Spec/T10Opcodes.v", "t10_service_actions")
     status = vlib.parse_spec_pairs("Spec/SAM.v", "sam_status")
@@ -63,7 +64,7 @@ def impl_findings():
 def replay(obj):
     if obj.get("kind") in (None, "broken-obligation", "runner-error"):
         return False, "replay names a broken obligation, not an input: %s" % obj.get("what")
-    now = [f for f in impl_findings() if f["id"] == obj["id"]]
+    now = [f for f in impl_findings(after_use=bool(obj.get("after_use"))) if f["id"] == obj["id"]]
     return (not now), ("still fails on the implementation: %s" % now[0] if now else "no longer fails")
 
 
@@ -94,6 +95,21 @@ def run(rep, tier, seed, summary):
                       distribution=dict(ok=sum(1 for c in cases if c[1] == "ok"), refused=sum(1 for c in cases if c[1] != "ok")))
             rep.extra["exhaustive"] = True
     findings = impl_findings()
+    # ... and again on the tables as a caller finds them after the library was used in the same process
+    try:
+        used = impl_findings(after_use=True)
+        ids = {f["id"] for f in findings}
+        extra = [dict(f, after_use=True, id=f["id"]) for f in used if f["id"] not in ids]
+        rep.suite("the tables re-read after the library was used in the process (a facade attached and re-attached to devices of all 32 peripheral "
+                  "device types x 5 fillings of the remaining INQUIRY bytes, every facade method called once)", 1, len(extra))
+        for f in extra:
+            f["kind"] = f["kind"] + " (after use)"
+        findings = findings + extra
+        if vlib.reflect_after_use().get("opcodes") != vlib.reflect().get("opcodes"):
+            rep.oblig("the opcode / service-action tables are the same objects with the same content after the library was used", False,
+                      "the tables changed at run time")
+    except Exception as e:  # noqa
+        rep.oblig("reflection after use runs", False, str(e)[-400:])
     known = {k["id"]: k for k in vlib.load_known() if k.get("property") == "C14" and k.get("status") == "known"}
     new = [f for f in findings if f["id"] not in known]
     for f in findings:
